@@ -101,6 +101,15 @@ def oracle(w, s):
                 return V("dispatch_bound_exceeded", "call %d: %d batches in flight, pre_dispatch allows %d "
                          "(n_jobs=%d, batch_size=%s)" % (c, w.max_inflight[c], max(P, 1), nj, case["batch_size"]),
                          what="dispatch_bound_exceeded", kind="inflight", cause=cause)
+        if rec.get("failed_at") is not None and case["flavour"] != "Gn":
+            # once a failure has been delivered (its callback returned) at most one look-ahead slice that was
+            # already in progress may still be taken (flavour Gn learns about failures only when the caller
+            # retrieves the job, so its deliveries carry no information)
+            b = max(w.b_cfg, 1) * (2 if case["batch_size"] == "auto" else 1)
+            extra = w.pulled[c] - rec.get("pulled_at_failure", 0)
+            if extra > nj * b:
+                return V("pulls_after_failure", "call %d: %d more items were taken from the input after a task failure had been "
+                         "delivered (one look-ahead slice = n_jobs %d x batch %d)" % (c, extra, nj, b))
         if rec.get("pulls_after_over"):
             return V("pull_after_call_over", "call %d: items %s taken from the input after the call had %s" % (
                 c, rec["pulls_after_over"][:5], "raised" if call.get("fail") else "ended / the generator was closed"))
